@@ -57,7 +57,10 @@ def _out_array(out):
         return out.to_numpy()
     if isinstance(out, pd.DataFrame):
         return out.iloc[:, 0].to_numpy()
-    return np.asarray(out)
+    if isinstance(out, pl.DataFrame):
+        return out.to_series(0).to_numpy()
+    a = np.asarray(out)
+    return a[:, 0] if a.ndim == 2 and a.shape[1] == 1 else a
 
 
 def base_trace(case, emb):
